@@ -53,15 +53,16 @@ Theorem C17_projectq_alloc_ignored : pq_alloc_ignored pq_tbl = true.
 Proof. vm_compute. reflexivity. Qed.
 Print Assumptions C17_projectq_alloc_ignored.
 
-(* 5. PARTIAL: for EVERY circuit over the gate kinds that survive ([pq_survives], a boolean computed
-      from the regenerated tables), with numeric parameters, exactly one control on the two-qubit
-      shape, and no idle qubit above the last used one.  Missing for the full statement: the kinds in
-      [pq_lost_names], multi-controlled gates, fixed widths (see the _refuted witnesses in
-      props/C17_pq_*_asis.v). *)
+(* 5. for EVERY circuit over the gate kinds that survive ([pq_survives], a boolean computed from the
+      regenerated tables), with one target, numeric parameters and exactly one control on the two-qubit
+      shape; idle qubits above the last used one are allowed exactly when the reader restores the width
+      from the Allocate instructions ([pq_restores_width], regenerated).  The variant files
+      props/C17_pq_*_repaired.v / _asis.v instantiate the two regenerated guards to what the source says
+      now; props/C17_pq_repaired.v states the result without them. *)
 Theorem C17_projectq_roundtrip_partial :
   forall (Ang : Type) (eqmod : bool -> Ang -> Ang -> bool), (forall l a, eqmod l a a = true) ->
   forall c : fcirc Ang,
-    circ_ok Ang gtables c -> fwidth c = gates_width Ang (fgates c) ->
+    circ_ok Ang gtables c -> (pq_restores_width pq_tbl = false -> fwidth c = gates_width Ang (fgates c)) ->
     Forall (fun g : pgate Ang => pq_survives gtables pq_tbl (pname g) = true) (fgates c) ->
     Forall (pq_expressible Ang pq_tbl) (fgates c) ->
     Forall (fun g : pgate Ang => pvar g = false) (fgates c) ->
@@ -101,30 +102,18 @@ Print Assumptions C17_ionq_record_faithful.
 
 (* ---- repr ------------------------------------------------------------------------------------- *)
 (* 8. the keyword list printed by Gate.__repr__ determines the gate: evaluating it through Gate.__init__
-      gives back the very same gate (hence an equal one), for every valid gate with at least one target
-      and no empty control list *)
+      gives back the very same gate (hence an equal one), for every valid gate when target / control are
+      printed "when not None"; when they are printed "when truthy" the gates with an empty target or
+      control list are excluded ([rp_when_not_none repr_tbl] is regenerated from gate.py; see
+      props/C17_repr_repaired.v resp. C17_repr_*_asis.v) *)
 Theorem C17_repr_fields_roundtrip :
   forall (Ang : Type) (eqmod : bool -> Ang -> Ang -> bool), (forall l a, eqmod l a a = true) ->
   forall g : pgate Ang,
-    gate_valid Ang gtables g -> ptarget g <> [] -> pcontrol g <> Some [] ->
-    repr_eval Ang gtables (gate_repr Ang g) = Ok g /\ gate_eq Ang eqmod gtables g g = true.
-Proof. exact (fun Ang eqmod H => repr_fields_roundtrip Ang eqmod H gtables). Qed.
+    gate_valid Ang gtables g ->
+    (rp_when_not_none repr_tbl = false -> ptarget g <> [] /\ pcontrol g <> Some []) ->
+    repr_eval Ang gtables (gate_repr Ang repr_tbl g) = Ok g /\ gate_eq Ang eqmod gtables g g = true.
+Proof. exact (fun Ang eqmod H => repr_fields_roundtrip Ang eqmod H gtables repr_tbl). Qed.
 Print Assumptions C17_repr_fields_roundtrip.
-
-(* 9. the two excluded shapes do fail (degenerate gates that Gate.__init__ accepts): a custom gate with
-      no target is printed without its target and cannot be re-created; an empty control list is printed
-      as no control and comes back as None, which Gate.__eq__ distinguishes from [] *)
-Theorem C17_repr_refuted_empty_target :
-  exists g : zgate, gate_valid Z gtables g
-                    /\ repr_eval Z gtables (gate_repr Z g) = Err TypeError.
-Proof. exists (G "FOO" [] None PNone false). vm_compute. split; reflexivity. Qed.
-Print Assumptions C17_repr_refuted_empty_target.
-
-Theorem C17_repr_refuted_empty_control :
-  exists (g g' : zgate), gate_valid Z gtables g /\ repr_eval Z gtables (gate_repr Z g) = Ok g'
-                         /\ gate_eq Z (zeqmod eq_modulus_units eq_modulus_long_units) gtables g g' = false.
-Proof. exists (G "CX" [0%Z] (Some []) PNone false). eexists. vm_compute. repeat split. Qed.
-Print Assumptions C17_repr_refuted_empty_control.
 
 (* ---- non-vacuity: a concrete circuit meeting all hypotheses of 2 and 5, and what comes back ------ *)
 Definition ex_circ : fcirc Z :=
@@ -135,7 +124,7 @@ Definition ex_circ_ionq : fcirc Z :=
                             G "XX" [0%Z; 4%Z] None (PNum 16%Z) false; G "CPHASE" [1%Z] (Some [0%Z]) (PNum 1%Z) false]) 7%Z.
 
 Example C17_example_hypotheses :
-  circ_ok Z gtables ex_circ /\ fwidth ex_circ = gates_width Z (fgates ex_circ)
+  circ_ok Z gtables ex_circ /\ fwidth ex_circ = gates_width Z (fgates ex_circ)   (* not needed when the width is restored *)
   /\ Forall (fun g : zgate => pq_survives gtables pq_tbl (pname g) = true) (fgates ex_circ)
   /\ Forall (pq_expressible Z pq_tbl) (fgates ex_circ)
   /\ circ_ok Z gtables ex_circ_ionq /\ Forall (iq_expressible Z ionq_tbl) (fgates ex_circ_ionq).
